@@ -89,7 +89,7 @@ Section Composed.
 
   (* what the scoring pipelines return: one matrix for every backend / dispatcher arm, R rows of 32
      non-NaN cells, max_index = L - M + 1, cell i = defined score of position i, -inf from max_index on *)
-  Theorem padding_scored :
+  Theorem C07_padding_scored :
     forall ar : arm,
     exists sc,
       generic_score F32.add F32.zero 32 pssm q = Ok sc /\
@@ -136,7 +136,7 @@ Section Composed.
      position's defined score; the arg-maximum (the vector arms under their max_index guard, discharged
      by L <= u32::MAX) designates a valid position; for a threshold above -inf every reported cell is a
      valid position whose defined score is >= t, and every such position is reported *)
-  Theorem padding_answers :
+  Theorem C07_padding_answers :
     forall (ar : arm) (a : MM.arm) (t : F32.t),
     (exists i, i < V /\ F32.is_finite (sdef i) = true) ->
     exists sc,
@@ -158,7 +158,7 @@ Section Composed.
                    MM.offset (sc_mat sc) rc < V /\ F32.le t (sdef (MM.offset (sc_mat sc) rc)) = true)).
   Proof.
     intros ar a t (i0 & Hi0 & Hfin).
-    destruct (padding_scored ar) as (sc & _ & _ & _ & Ed & Hmax & Hlen & Hwf & Hgood & Hidx & Hpad).
+    destruct (C07_padding_scored ar) as (sc & _ & _ & _ & Ed & Hmax & Hlen & Hwf & Hgood & Hidx & Hpad).
     exists sc. split; [exact Ed|]. split; [exact Hmax|].
     set (m := sc_mat sc) in *.
     assert (HVn : V <= length m * 32).
@@ -215,7 +215,7 @@ End Composed.
    A with 0.0 and C / T / G with 1.0, wildcard column -inf.  max_index = 2 and the two valid positions
    score 0.0 (finite), yet cell 2 holds 1.0 and cells 3 .. 30 hold 2.0: the maximum of the matrix
    (every arm) is 2.0, not the best valid score 0.0, and the arg-maximum designates a position
-   >= max_index.  The state is Padded (C01's weaker predicate) but not Striped; the first sentence of
+   >= max_index (pad_witness_check).  The state is Padded (C01's weaker predicate) but not Striped; the first sentence of
    C07 (maximum of the cells, whatever they are) still holds -- only the padding clause fails. *)
 Definition pad_witness_q : sseq :=
   mkSeq 3 1 [ [0; 0; 0] ++ repeat 1 29 ; [0; 0] ++ repeat 1 29 ++ [4] ].
@@ -223,20 +223,39 @@ Definition pad_witness_pssm : list (list F32.t) :=
   let z := F32.zero in let one := F32.of_bits 0x3f800000 in
   [ [z; one; one; one; F32.ninf] ; [z; one; one; one; F32.ninf] ].
 
+(* the facts about the witness, as one boolean (binary32 values are compared through their bit patterns:
+   normal forms of Flocq floats carry proof terms that are slow to read back) *)
+Definition pad_witness_check : bool :=
+  match generic_score F32.add F32.zero 32 pad_witness_pssm pad_witness_q with
+  | Ok sc =>
+      let m := sc_mat sc in
+      let bits_are (r : res F32.t) (b : Z) := match r with Ok v => Z.eqb (F32.to_bits v) b | _ => false end in
+      (* max_index = 2, one row *)
+      (sc_max sc =? 2) && (length m =? 1) &&
+      (* the two valid positions hold their defined score 0.0 (finite) ... *)
+      forallb (fun i => bits_are (MM.index_usize m i) 0%Z) [0; 1] &&
+      forallb (fun i => Z.eqb (F32.to_bits (score_def F32.add F32.zero 4 pad_witness_pssm [0; 0; 0] i)) 0%Z) [0; 1] &&
+      (* ... but cell 2 holds 1.0 and cell 3 holds 2.0, past max_index: not -inf *)
+      bits_are (MM.index_usize m 2) 0x3f800000%Z && bits_are (MM.index_usize m 3) 0x40000000%Z &&
+      (* the maximum of every arm is 2.0, not the best valid score 0.0 *)
+      forallb (fun a => match MM.dispatch_max_f32 F32.le F32.max_x86 F32.max a m with
+                        | Ok (Some v) => Z.eqb (F32.to_bits v) 0x40000000%Z
+                        | _ => false
+                        end) [MM.AGeneric; MM.ASse2; MM.AAvx2] &&
+      (* the arg-maximum of every arm designates a position >= max_index *)
+      forallb (fun a => match MM.dispatch_argmax_f32 F32.le F32.lt F32.ninf a 2%N m with
+                        | Ok (Some rc) => 2 <=? MM.offset m rc
+                        | _ => false
+                        end) [MM.AGeneric; MM.ASse2; MM.AAvx2]
+  | _ => false
+  end.
+
 Theorem C07_padding_needs_wildcard_padding :
   let s := [0; 0; 0] in
-  let two := F32.of_bits 0x40000000 in
   Padded 32 4 s pad_witness_q /\ ~ Striped 32 4 s pad_witness_q /\
   (forall row, In row pad_witness_pssm -> nth 4 row F32.zero = F32.ninf) /\
   (forall i, i < 32 -> MM.terms_ok F32.add F32.zero 4 F32.zero MM.f32_okv pad_witness_pssm s i = true) /\
-  exists sc,
-    generic_score F32.add F32.zero 32 pad_witness_pssm pad_witness_q = Ok sc /\
-    sc_max sc = 2 /\ length (sc_mat sc) = 1 /\
-    map (fun i => F32.to_bits (score_def F32.add F32.zero 4 pad_witness_pssm s i)) [0; 1] = [0%Z; 0%Z] /\
-    MM.index_usize (sc_mat sc) 3 = Ok two /\
-    (forall a, MM.dispatch_max_f32 F32.le F32.max_x86 F32.max a (sc_mat sc) = Ok (Some two)) /\
-    (forall a, exists rc, MM.dispatch_argmax_f32 F32.le F32.lt F32.ninf a 2%N (sc_mat sc) = Ok (Some rc) /\
-                          2 <= MM.offset (sc_mat sc) rc).
+  pad_witness_check = true.
 Proof.
   cbv zeta. split; [|split; [|split; [|split]]].
   - assert (E : [0; 0; 0] = logical_seq 32 4 pad_witness_q) by (vm_compute; reflexivity).
@@ -247,13 +266,5 @@ Proof.
     assert (H : forallb (fun i => MM.terms_ok F32.add F32.zero 4 F32.zero MM.f32_okv pad_witness_pssm [0; 0; 0] i)
                         (seq 0 32) = true) by (vm_compute; reflexivity).
     rewrite forallb_forall in H. apply H. apply in_seq. lia.
-  - destruct (generic_score F32.add F32.zero 32 pad_witness_pssm pad_witness_q) as [sc| | |] eqn:E;
-      try (vm_compute in E; discriminate).
-    exists sc. split; [reflexivity|].
-    assert (Es : sc = mkScores (sc_mat sc) (sc_max sc)) by (destruct sc; reflexivity).
-    vm_compute in E. inversion E as [E']. cbn [sc_mat sc_max].
-    split; [reflexivity|]. split; [reflexivity|]. split; [vm_compute; reflexivity|].
-    split; [vm_compute; reflexivity|]. split.
-    + intros a; destruct a; vm_compute; reflexivity.
-    + intros a; destruct a; eexists; (split; [vm_compute; reflexivity|cbn; lia]).
+  - vm_compute. reflexivity.
 Qed.
